@@ -322,9 +322,9 @@ def _sh(tier):
 
 HARNESSES = [
     H(mutex, shards=lambda tier: [("init == %d" % i,) + s for i in (0, 1) for s in _sh(tier)],
-      timeout={"quick": 60, "thorough": 900}),
-    H(mutex_stale, shards=_sh, labels=("end", "stale_acquired"), timeout={"quick": 60, "thorough": 1200}),
-    H(stale_solo, timeout={"quick": 30, "thorough": 60}),
+      timeout={"quick": 150, "thorough": 900}),
+    H(mutex_stale, shards=_sh, labels=("end", "stale_acquired"), timeout={"quick": 150, "thorough": 1200}),
+    H(stale_solo, timeout={"quick": 60, "thorough": 60}),
 ]
 
 # P0 and P1 both find the stale link and read the dead pid; P0 removes it, acquires; P1's delayed rmlink
